@@ -264,7 +264,9 @@ C07_InsertHarmless == (Quiescent /\ nfault = 0) => \A pid \in PIDs : Ids(PerPid(
 
 \* ---------------------------------------------------------------- Rewind (C20)
 \* demuxer.go:Rewind after j packets were read and i of the items produced so far were taken by the caller: the data buffer and the
-\* packet pool are replaced, the program map is kept; the stream is then read again from its first packet.
+\* packet pool and the program map are replaced; the stream is then read again from its first packet.
+\*   "RewindKeepsProgramMap"  the PMT PIDs learnt before the rewind survive it (PMT-PID units that precede their PAT, or a PID that
+\*                            carries an elementary stream before a later PAT makes it a PMT PID, are then treated differently)
 \*   "RewindKeepsBuffer"   items parsed but not yet returned survive the rewind
 \*   "RewindKeepsPool"     the accumulators survive the rewind
 RECURSIVE RunPkts(_, _, _, _)
@@ -276,10 +278,11 @@ AfterRewind(j, i) ==
   LET sj == RunPkts(units, State0({}, <<>>), SubSeq(hist, 1, j), 1)
       buf == IF HasDev("RewindKeepsBuffer") THEN SubSeq(sj.delivered, i + 1, Len(sj.delivered)) ELSE <<>>
       a0 == IF HasDev("RewindKeepsPool") THEN sj.acc ELSE [p \in PIDs |-> <<>>]
-  IN Total0(RunPkts(units, [acc |-> a0, pm |-> sj.pm, delivered |-> buf, nread |-> 0], hist, 1))
+      pm0 == IF HasDev("RewindKeepsProgramMap") THEN sj.pm ELSE {}
+  IN Total0(RunPkts(units, [acc |-> a0, pm |-> pm0, delivered |-> buf, nread |-> 0], hist, 1))
 TakenAt(j) == LET sj == RunPkts(units, State0({}, <<>>), SubSeq(hist, 1, j), 1) IN 0..Len(sj.delivered)
-\* after Rewind at any point of consumption the demuxer delivers what a fresh one delivers (streams whose PAT precedes their PMTs:
-\* EarlyPMT = FALSE; with EarlyPMT = TRUE TLC shows the kept program map making the difference)
+\* after Rewind at any point of consumption the demuxer delivers what a fresh one delivers - also when PMT-PID units precede their PAT
+\* (EarlyPMT = TRUE), where a kept program map ("RewindKeepsProgramMap") makes the difference
 C20_RewindFresh == (Quiescent /\ nfault = 0) =>
                      \A j \in 0..Len(hist) : \A i \in TakenAt(j) : Ids(AfterRewind(j, i)) = Ids(FreshRun)
 
